@@ -6,7 +6,7 @@ out=/verif/seeded/MATRIX.md
 echo "# Seeded changes x VERIF_SEED (quick tier of the seed's own property; 1 = VIOLATION reported)" > $out
 echo "" >> $out; echo "| seed | $(echo $seeds | sed 's/ / | /g') |" >> $out; echo "|---|$(for s in $seeds; do printf -- '---|'; done)" >> $out
 for d in /verif/seeded/C*/; do
-  id=$(basename $d); prop=${id%%_*}
+  id=$(basename $d); prop=${id:0:3}
   scratch=$(mktemp -d /tmp/seedmx_XXXX)
   rsync -a --exclude .git --exclude __pycache__ --exclude '*.ipynb' /repo/ $scratch/repo/
   ( cd $scratch/repo && git init -q . && git apply $d/patch.diff ) || { echo "| $id | patch does not apply |" >> $out; rm -rf $scratch; continue; }
